@@ -164,9 +164,21 @@ def audit(pid, allowed_extra=()):
             res['problems'].append('forbidden construct %r in %s' % (word, os.path.relpath(f, LEAN_DIR)))
     src = open(props).read()
     body = strip_comments(src)
-    names = re.findall(r'^\s*(?:private\s+)?theorem\s+([^\s:({\[]+)', body, flags=re.M)
-    ns = re.findall(r'^namespace\s+([\w.]+)', body, flags=re.M)
-    prefix = (ns[0] + '.') if ns else ''
+    # fully qualified theorem names: follow `namespace X` / `end X`
+    names, stack = [], []
+    for line in body.split('\n'):
+        m = re.match(r'^\s*namespace\s+([\w.]+)', line)
+        if m:
+            stack.append(m.group(1))
+            continue
+        m = re.match(r'^\s*end\s+([\w.]+)\s*$', line)
+        if m and stack and stack[-1] == m.group(1):
+            stack.pop()
+            continue
+        m = re.match(r'^\s*(?:private\s+|protected\s+)?theorem\s+([^\s:({\[]+)', line)
+        if m:
+            names.append('.'.join(stack + [m.group(1)]))
+    prefix = ''
     # statement hashes: text from `theorem name` up to `:= by` / `:=`
     for m in re.finditer(r'theorem\s+([^\s:({\[]+)(.*?):=', body, flags=re.S):
         res['statement_hash'][m.group(1)] = hashlib.sha256(
